@@ -98,7 +98,7 @@ mutual
       split at h
       · rename_i sfs tfs h1 h2
         simp only [Bool.and_eq_true, decide_eq_true_eq] at h
-        exact .structc h1 h2 h.1 (checkFieldsU_sound p plans sfs.toList tfs.toList h.2)
+        exact .structc h1 h2 h.1 (checkFieldsU_sound p plans s tfs.toList h.2)
       · cases h
     | .underlying _ _ _, _, _, h => by unfold checkTyU at h; cases h
     | .srcPtr t' inner, s, t, h => by
@@ -114,15 +114,15 @@ mutual
     | .enumc _ _, _, _, h => by unfold checkTyU at h; cases h
     | .withCtor _ _ _, _, _, h => by unfold checkTyU at h; cases h
     | .ctorUpdate _ _ _ _ _, _, _, h => by unfold checkTyU at h; cases h
-  theorem checkFieldsU_sound (p : Program) : ∀ (plans : FieldPlans) (sfs tfs : List (FieldInfo × Ty)),
-      checkFieldsU p plans sfs tfs = true → HasFieldsU p plans sfs tfs
+  theorem checkFieldsU_sound (p : Program) : ∀ (plans : FieldPlans) (s : Ty) (tfs : List (FieldInfo × Ty)),
+      checkFieldsU p plans s tfs = true → HasFieldsU p plans s tfs
     | .nil, _, [], _ => .nil
     | .nil, _, _ :: _, h => by unfold checkFieldsU at h; cases h
-    | .cons f rest, sfs, [], h => by unfold checkFieldsU at h; cases h
-    | .cons f rest, sfs, (tf, tty) :: tfs, h => by
+    | .cons f rest, s, [], h => by unfold checkFieldsU at h; cases h
+    | .cons f rest, s, (tf, tty) :: tfs, h => by
       unfold checkFieldsU at h
       simp only [Bool.and_eq_true] at h
-      have hrest := checkFieldsU_sound p rest sfs tfs h.2
+      have hrest := checkFieldsU_sound p rest s tfs h.2
       cases f with
       | skip target =>
         have hf := h.1
@@ -135,18 +135,20 @@ mutual
         have hf := h.1
         unfold checkFieldU at hf
         simp only [Bool.and_eq_true] at hf
-        obtain ⟨⟨⟨⟨ht, hp⟩, hd⟩, hg⟩, hfind⟩ := hf
+        obtain ⟨ht, hw⟩ := hf
         have e1 : target = tf.name := by simpa using ht
-        have e2 : path = [tf.name] := by simpa using hp
-        have e3 : derefs = [false] := by simpa using hd
-        have e4 : guarded = false := by simpa using hg
-        subst e1; subst e2; subst e3; subst e4
-        cases hfd : sfs.find? (fun (x : FieldInfo × Ty) => x.1.name == tf.name) with
-        | none => simp [hfd] at hfind
+        subst e1
+        cases hwt : walkTy p.conv.env s path with
+        | none => simp [hwt] at hw
         | some q =>
-          obtain ⟨sf, sty⟩ := q
-          simp only [hfd] at hfind
-          exact .cons hfd (checkTyU_sound p cv sty tty hfind) hrest
+          obtain ⟨leaf, ds, g⟩ := q
+          simp only [hwt, Bool.and_eq_true] at hw
+          obtain ⟨⟨⟨hd, hg⟩, hl⟩, hcv⟩ := hw
+          have e2 : derefs = ds := by simpa using hd
+          have e3 : guarded = g := by simpa using hg
+          have e4 : b = (isPtr p.conv.env leaf).isSome := by simpa using hl
+          subst e2; subst e3
+          exact .cons hwt e4 (checkTyU_sound p cv _ tty hcv) hrest
 end
 
 theorem checkCtor_sound (p : Program) (ctor : Conv) (tp : Bool) (t : Ty) (h : checkCtor p ctor tp t = true) :
